@@ -155,6 +155,82 @@ def use_map(src):
     return out
 
 
+def _headers(toks, k):
+    """the headers (`#[cfg(test)] mod tests`, `fn f ( .. ) -> T`, ..) of the blocks enclosing token k, innermost first"""
+    out = []
+    depth = 0
+    i = k - 1
+    while i >= 0:
+        t = toks[i]
+        if t.kind == "punct" and t.text == "}":
+            depth += 1
+        elif t.kind == "punct" and t.text == "{":
+            if depth:
+                depth -= 1
+            else:
+                j = i - 1
+                d = 0
+                while j >= 0:
+                    x = toks[j]
+                    if x.kind == "punct" and x.text in (")", "]", ">"):
+                        d += 1
+                    elif x.kind == "punct" and x.text in ("(", "[", "<"):
+                        d -= 1
+                    elif d <= 0 and x.kind == "punct" and x.text in (";", "{", "}"):
+                        break
+                    j -= 1
+                out.append(" ".join(x.text for x in toks[j + 1:i]))
+        i -= 1
+    return out
+
+
+def in_test_module(headers):
+    """is one of the enclosing blocks a `#[cfg(test)] mod ..`?  (not compiled into the library)"""
+    import re
+    return any(re.search(r"#\s*\[\s*cfg\s*\(\s*test\s*\)\s*\]", h) and re.search(r"\bmod\b", h) for h in headers)
+
+
+def all_uses(src):
+    """[(headers of the enclosing blocks (innermost first; [] at the top level), imported name | `*`, full path)] of every
+    `use` declaration of the file, nested ones included"""
+    toks = [t for t in tokenize(src) if t.kind != "eof"]
+    out = []
+    for _start, u, e, scope in _declarations(toks):
+        hs = _headers(toks, u) if scope is not None else []
+        for name, segs in _use_tree(toks, u + 1, e):
+            out.append((hs, name, "::".join(segs)))
+    return out
+
+
+def type_items(src):
+    """the `type` items of the file (aliases; not associated types inside `impl` / `trait`, not inside test modules), each
+    as whitespace-free text from `type` to `;`"""
+    toks = [t for t in tokenize(src) if t.kind != "eof"]
+    out = []
+    for i, t in enumerate(toks):
+        if t.kind == "ident" and t.text == "type" and (i == 0 or toks[i - 1].kind == "attr" or (toks[i - 1].kind == "punct" and toks[i - 1].text in (";", "{", "}", ")"))
+                                                     or (toks[i - 1].kind == "ident" and toks[i - 1].text == "pub")):
+            hs = _headers(toks, i)
+            if in_test_module(hs) or (hs and any(w in hs[0].split() for w in ("impl", "trait"))):
+                continue
+            j = i
+            while j < len(toks) and not _is(toks[j], ";"):
+                j += 1
+            out.append("".join(x.text for x in toks[i:j + 1]))
+    return out
+
+
+def defined_names(src):
+    """names the file itself declares as items (`fn x`, `struct x`, `type x`, ..), at any depth"""
+    toks = [t for t in tokenize(src) if t.kind != "eof"]
+    out = set()
+    for i, t in enumerate(toks[:-1]):
+        if t.kind == "ident" and t.text in ("fn", "struct", "enum", "union", "mod", "type", "trait", "const", "static") \
+                and toks[i + 1].kind == "ident" and toks[i + 1].text not in ("fn", "unsafe", "extern", "mut"):
+            out.add(toks[i + 1].text)
+    return out
+
+
 def resolve_uses(src, keep=()):
     """source text with every `use` declaration blanked out and every path that starts with an imported name written in
     full.  Names in `keep` ({name: path} the caller's vocabulary already reads under the short name) are left alone when
@@ -213,7 +289,14 @@ def resolve_uses(src, keep=()):
         if nxt is not None and _is(nxt, "!") and k + 2 < n and toks[k + 2].kind == "punct" and toks[k + 2].text in ("(", "[", "{"):
             continue            # a macro invocation: macros are vocabulary by name
         local = t.text[:1].islower() or t.text[:1] == "_"
-        if (prev is not None and prev.kind == "ident" and prev.text in _DECL_BEFORE) \
+        decl = prev is not None and prev.kind == "ident" and prev.text in _DECL_BEFORE
+        if decl and prev.text in ("mut", "const") and k >= 2 and toks[k - 2].kind == "punct" and toks[k - 2].text in ("&", "&&", "*"):
+            decl = False        # `&mut Type`, `*const Type`: a use of the name
+        if decl and nxt is not None and _is(nxt, "::") and prev.text in ("let", "mut", "ref"):
+            decl = False        # `let Color::Ansi(c) = ..`: a path pattern
+        if decl and not local and prev.text in ("let", "mut", "ref") and nxt is not None and nxt.kind == "punct" and nxt.text in ("(", "{"):
+            decl = False        # `let Wrapper(x) = ..`: a constructor pattern
+        if decl \
                 or (prev is not None and prev.kind == "ident" and prev.text == "for" and nxt is not None and nxt.kind == "ident" and nxt.text == "in") \
                 or (nxt is not None and _is(nxt, "@")) \
                 or (local and nxt is not None and nxt.kind == "punct" and nxt.text in ("=", "+=", "-=", "|=", "&=", "^=", "*=", "/=", "%=", "<<=", ">>=")) \
